@@ -415,7 +415,7 @@ theorem C04_compileBetween_wellTyped (e lo hi n : CExpr) (h : compileBetween e l
         simp only [Bool.false_eq_true] at hreg
       simp only [sigMatch, tyMatch, Bool.and_eq_true, Bool.or_eq_true, beq_iff_eq, bne_iff_ne, ne_eq, Bool.and_true] at hsig hreg
       obtain ⟨⟨⟨hb, ha⟩, hbb⟩, hc⟩ := hreg
-      rcases hsig with ⟨h1 | h1, h2 | h2, h3 | h3⟩ <;> first | exact absurd h1 ha | exact absurd h2 hbb | exact absurd h3 hc | skip
+      rcases hsig with ⟨h1 | h1, h2 | h2, h3 | h3⟩ <;> first | exact absurd h1.1 ha | exact absurd h2.1 hbb | exact absurd h3.1 hc | skip
       subst h1 h2 h3
       exact hb
     simp [wellTyped, he, hl, hh, hty]
